@@ -9,6 +9,8 @@ Contract (from the property statement), evaluated on every history of the scope:
 After the last step of every history the queue is drained (peek, pop, len each time) = every reader
 after every step.  The sorted backend (BarrelList) is also driven directly against a plain list:
 insert at every index, pop at every index, append; len, truthiness, iteration and every item compared.
+Only the calls the queues make (insort -> insert(i), 0 <= i <= len; pop(0); len; item access; iteration)
+are judged; deviations of other list calls are recorded as `outside_statement_observations`, not failures.
 `BarrelList._size_factor` is lowered in-process so that sub-lists of 0-3 items exist, and left at its
 real value for runs that are long enough (> 22 100 entries) for the real split to happen.
 """
@@ -186,12 +188,12 @@ def run_history(H, buf, hist, cfg, key=None):
     return ok
 
 
-def explore(H, buf, prios, L, cfgs, part, key=None, frac=0.5, last_cfgs=None):
+def explore(H, buf, prios, L, cfgs, part, key=None, frac=0.5, last_cfgs=None, defaults=True):
     def alphabet(used):
         ops = []
         for ti in range(min(used + 1, len(TASKS))):
             ops += [('add', (TASKS[ti], p)) for p in prios] + [('remove', (TASKS[ti],))]
-        return ops + [('pop', ()), ('peek', ()), ('pop', (DFLT,)), ('peek', (DFLT,))]
+        return ops + [('pop', ()), ('peek', ())] + ([('pop', (DFLT,)), ('peek', (DFLT,))] if defaults else [])
     stack = [((), 0)]
     while stack:
         hist, used = stack.pop()
@@ -457,14 +459,16 @@ def run():
                      'BarrelList had several sub-lists before the operation',
                 bounds=dict(
                     quick='queues: all histories <= 4 over 3 tasks x priorities {None,0,1,1.0,-1} + remove/pop/peek '
-                          '(with and without default), <= 5 over priorities {None,1,-1}, first use of tasks in fixed order; '
-                          'each with the real size factor and with _size_factor 0.5 and 1; priority_key histories <= 3; '
-                          'BarrelList: breadth-first over all insert/pop/append instances from every distinct sub-list '
-                          'shape, factor 0.5/1/2, <= 7 items, depth <= 9; real factor: 23 500 end inserts + 3 000 mixed '
-                          'ops, and one 23 500-task queue run (adds, 300 removes/re-adds, pops, full drain)',
+                          '(with and without default), <= 5 over priorities {None,1,-1} + remove/pop/peek; tasks first '
+                          'used in fixed order; every history with the real size factor and with _size_factor 0.5 and 1 '
+                          '(longest level: real + 0.5, resp. 0.5 only); priority_key histories <= 3; BarrelList in the '
+                          'queue call profile (insert 0..len, pop(0)) and beyond it (observations only): breadth-first '
+                          'over all insert/pop/append instances from every distinct sub-list shape, factor 0.5/1/2, '
+                          '<= 7 items, depth <= 9; real factor: 23 500 end inserts + 3 000 mixed inserts/pop(0), and one '
+                          '23 500-task queue run (adds, 300 removes/re-adds, pops, full drain)',
                     thorough='as quick with histories <= 5 (full priorities) / <= 6 (reduced), factor 2 added, '
-                             'BarrelList <= 10 items depth <= 14, real factor 45 000 end inserts + 20 000 mixed ops, '
-                             '45 000-task queue run, seeded extra 26 000-task run'))
+                             'BarrelList <= 9-12 items depth <= 11-14 (factors 0.5/1/2/3), real factor 45 000 end '
+                             'inserts + 20 000 mixed ops, 45 000-task queue run, seeded extra 26 000-task run'))
     buf = FailBuf()
     real = ('real', REAL_SF)
     try:
@@ -476,16 +480,17 @@ def run():
         queue_large(H, buf, 45000 if H.thorough else 23500, H.seed)
         if H.thorough:
             queue_large(H, buf, 26000, H.seed + 1)
-        for sf, nmax, depth in ((1, 7, 9), (0.5, 7, 9), (2, 7, 9)) if not H.thorough else \
-                ((1, 10, 14), (0.5, 10, 14), (2, 10, 14), (3, 12, 14)):
-            lv = barrel_bfs(H, sf, nmax, depth, 'barrel_bfs_%s' % sf, 0.25 if not H.thorough else 0.2)
+        plan = ((1, 7, 9, .12), (0.5, 7, 9, .2), (2, 7, 9, .25)) if not H.thorough else \
+            ((1, 9, 12, .06), (0.5, 9, 11, .12), (2, 10, 14, .15), (3, 12, 14, .18))
+        for sf, nmax, depth, frac in plan:
+            lv = barrel_bfs(H, sf, nmax, depth, 'barrel_bfs_%s' % sf, frac)
             H.parts['barrel_bfs_%s_new_shapes_per_depth' % sf] = lv
-        explore(H, buf, PRIOS_FULL, 5 if H.thorough else 4, [real] + lowered, 'queues_full', frac=0.5,
-                last_cfgs=None if H.thorough else [real] + lowered[:1])
-        explore(H, buf, PRIOS_RED, 6 if H.thorough else 5, [real] + lowered, 'queues_reduced', frac=0.8,
-                last_cfgs=None if H.thorough else lowered[:1])
+        last = [real] + lowered[:1]
+        explore(H, buf, PRIOS_FULL, 5 if H.thorough else 4, [real] + lowered, 'queues_full', frac=0.45, last_cfgs=last)
+        explore(H, buf, PRIOS_RED, 6 if H.thorough else 5, [real] + lowered, 'queues_reduced', frac=0.7,
+                last_cfgs=lowered[:1], defaults=False)
         explore(H, buf, [0, 1, -1, 0.5], 4 if H.thorough else 3, [real, ('1', 1)], 'queues_priority_key', key=ident,
-                frac=0.85)
+                frac=0.75)
     finally:
         BarrelList._size_factor = REAL_SF
     buf.flush(H)
